@@ -211,7 +211,9 @@ where
         let bits_per_sample = header
             .bits_per_sample()
             .unwrap_or(bits_per_sample_from_header);
-        if bits_per_sample != bits_per_sample_from_header {
+        if bits_per_sample != bits_per_sample_from_header
+            || bits_per_sample > crate::constant::MAX_BITS_PER_SAMPLE
+        {
             return Err(nom::Err::Error(error_position!(
                 remaining_input,
                 nom::error::ErrorKind::TagBits
@@ -363,7 +365,7 @@ fn sample_rate_code<'a, E>(
 where
     E: ParseError<&'a [u8]>,
 {
-    debug_assert!(tag <= 0b1110);
+    // NOTE: an invalid tag (0b1111) is mapped to a parse error by `from_tag_and_data`.
     move |input| {
         let remaining_input = input;
         let (remaining_input, data) = if tag == 0b1100 {
@@ -451,7 +453,13 @@ where
     let (remaining_input, typetag) = bit_take(7usize)(remaining_input)?;
     let (remaining_input, wasted_flag): (_, u8) = bit_take(1usize)(remaining_input)?;
 
-    assert!(wasted_flag == 0); // not supported
+    if wasted_flag != 0 {
+        // wasted bits are not supported.
+        return Err(nom::Err::Error(error_position!(
+            remaining_input,
+            nom::error::ErrorKind::TagBits
+        )));
+    }
 
     Ok((remaining_input, (typetag, wasted_flag != 0)))
 }
@@ -517,7 +525,12 @@ where
         }
         let order = (typetag as usize) - 0x08;
         let (remaining_input, warm_up) = raw_samples(bits_per_sample, order)(remaining_input)?;
-        let warm_up = heapless::Vec::try_from(warm_up.as_slice()).expect("Unexpected error");
+        let warm_up = heapless::Vec::try_from(warm_up.as_slice()).map_err(|()| {
+            nom::Err::Error(error_position!(
+                remaining_input,
+                nom::error::ErrorKind::TagBits
+            ))
+        })?;
 
         let (remaining_input, residual) = residual(block_size, order)(remaining_input)?;
 
@@ -556,7 +569,12 @@ where
         }
         let order = (typetag as usize) - 0x20 + 1;
         let (remaining_input, warm_up) = raw_samples(bits_per_sample, order)(remaining_input)?;
-        let warm_up = heapless::Vec::try_from(warm_up.as_slice()).expect("Unexpected error");
+        let warm_up = heapless::Vec::try_from(warm_up.as_slice()).map_err(|()| {
+            nom::Err::Error(error_position!(
+                remaining_input,
+                nom::error::ErrorKind::TagBits
+            ))
+        })?;
 
         let (remaining_input, parameters) = quantized_parameters(order)(remaining_input)?;
         let (remaining_input, residual) = residual(block_size, order)(remaining_input)?;
@@ -592,8 +610,14 @@ where
         let (remaining_input, coefs) = raw_samples(precision, order)(remaining_input)?;
 
         let coefs: Vec<i16> = coefs.into_iter().map(|x| x as i16).collect();
-        let ret = component::QuantizedParameters::new(&coefs, order, shift, precision)
-            .expect("Unexpected error");
+        let ret = component::QuantizedParameters::new(&coefs, order, shift, precision).map_err(
+            |_e| {
+                nom::Err::Error(error_position!(
+                    remaining_input,
+                    nom::error::ErrorKind::Verify
+                ))
+            },
+        )?;
         Ok((remaining_input, ret))
     }
 }
@@ -661,6 +685,13 @@ where
 
         let partition_count = 1usize << (partition_order as usize);
         let partition_len = block_size / partition_count;
+        if partition_len * partition_count != block_size || partition_len < warmup_length {
+            // the block must split evenly and the warm-up must fit in the first partition.
+            return Err(nom::Err::Error(error_position!(
+                remaining_input,
+                nom::error::ErrorKind::Verify
+            )));
+        }
 
         let mut rice_params = Vec::with_capacity(partition_count);
         let mut quotients = Vec::with_capacity(block_size);
